@@ -13,9 +13,9 @@
 (* and an injective one.                                                     *)
 EXTENDS AkdDirectory, Json, IOUtils, TLC, SequencesExt
 
-VARIABLES pos, roots, memo, ctx
+VARIABLES pos, roots, memo, ctx, saved
 
-tvars == <<dvars, pos, roots, memo, ctx>>
+tvars == <<dvars, pos, roots, memo, ctx, saved>>
 
 Rec == ndJsonDeserialize(IOEnv.TRACE)
 Ev == Rec[pos]
@@ -28,6 +28,7 @@ TInit ==
   /\ roots = <<>>
   /\ memo = <<>>           \* a function with empty domain
   /\ ctx = <<"-", 0>>
+  /\ saved = <<>>
   /\ TLCSet(1, 1)
 
 MemoKey(c, h) == <<c, Committed(h)>>
@@ -47,10 +48,11 @@ TReset ==
   /\ roots' = <<Ev.root0>>
   /\ ctx' = <<Ev.cfg, Ev.conc>>
   /\ MemoUpdate(<<Ev.cfg, Ev.conc>>, [x \in Labels |-> <<>>], Ev.root0)
+  /\ saved' = <<>>
 
-TPublish ==
-  /\ IsEv("publish")
-  /\ LET b == Ev.batch IN
+(* the body of a publish event whose call returned ok / noop / a specification-level error *)
+PublishBody ==
+  LET b == Ev.batch IN
      /\ Ev.res = PublishResult(b)
      /\ Publish(b)
      /\ Ev.txn_open = FALSE
@@ -65,15 +67,61 @@ TPublish ==
                          /\ UNCHANGED <<roots, memo>>
                     ELSE /\ roots' = Append(roots, Ev.root)
                          /\ MemoUpdate(ctx, hist', Ev.root)
-  /\ UNCHANGED ctx
+
+(* C10: a publish during which storage operation k failed. If it returned an error nothing may have *)
+(* changed and no transaction may be left open; if the failure was tolerated it is a normal publish.  *)
+TPublishFault ==
+  /\ IsEv("publish_fault")
+  /\ IF Ev.res = "err"
+       THEN /\ Ev.txn_open = FALSE
+            /\ UNCHANGED <<dvars, roots, memo>>
+       ELSE PublishBody
+  /\ UNCHANGED <<ctx, saved>>
+
+TSave == /\ IsEv("save") /\ saved' = <<epoch, hist, effective, roots>> /\ UNCHANGED <<dvars, roots, memo, ctx>>
+TRestore == /\ IsEv("restore") /\ saved # <<>>
+            /\ epoch' = saved[1] /\ hist' = saved[2] /\ effective' = saved[3] /\ roots' = saved[4]
+            /\ UNCHANGED <<memo, ctx, saved>>
+
+(* C13: an answer of an instance that may have fallen behind storage, or that ran concurrently with  *)
+(* publishes: an error, or a really published (epoch, root) pair with results as of exactly that epoch *)
+RootAt(t) == roots[t + 1]
+TRAnswer ==
+  /\ IsEv("ranswer")
+  /\ LET k == Ev.kind IN
+     CASE k = "epoch_hash" ->
+            Ev.res = "err" \/ (Ev.res = "ok" /\ Ev.epoch <= epoch /\ Ev.root = RootAt(Ev.epoch))
+       [] k = "lookup" ->
+            \/ Ev.res = "err"
+            \/ /\ Ev.res = "ok" /\ Ev.epoch <= epoch /\ Ev.root = RootAt(Ev.epoch)
+               /\ PublishedAt(Ev.label, Ev.epoch) /\ Ev.out = LookupOutAt(Ev.label, Ev.epoch)
+       [] k = "batch_lookup" ->
+            \/ Ev.res = "err"
+            \/ /\ Ev.res = "ok" /\ Ev.epoch <= epoch /\ Ev.root = RootAt(Ev.epoch)
+               /\ \A i \in 1..Len(Ev.labels) : PublishedAt(Ev.labels[i], Ev.epoch)
+               /\ Ev.outs = [i \in 1..Len(Ev.labels) |-> LookupOutAt(Ev.labels[i], Ev.epoch)]
+       [] k = "history" ->
+            \/ Ev.res = "err"
+            \/ /\ Ev.res = "ok" /\ Ev.epoch <= epoch /\ Ev.root = RootAt(Ev.epoch)
+               /\ PublishedAt(Ev.label, Ev.epoch) /\ Ev.out = HistoryOutAt(Ev.label, Ev.n, Ev.epoch)
+       [] k = "audit" ->
+            \/ Ev.res = "refused"
+            \/ Ev.res = "ok" /\ AuditDefined(Ev.s, Ev.e) /\ Ev.roots = SubSeq(roots, Ev.s + 1, Ev.e + 1)
+       [] k = "wire" -> Ev.roundtrip /\ Ev.same
+  /\ UNCHANGED <<dvars, roots, memo, ctx, saved>>
+
+TPublish ==
+  /\ IsEv("publish")
+  /\ PublishBody
+  /\ UNCHANGED <<ctx, saved>>
 
 TTombstone ==
   /\ IsEv("tombstone")
   /\ Ev.res = "ok"
   /\ Tombstone(Ev.label, Ev.cut)
-  /\ UNCHANGED <<roots, memo, ctx>>
+  /\ UNCHANGED <<roots, memo, ctx, saved>>
 
-Same == UNCHANGED <<dvars, roots, memo, ctx>>
+Same == UNCHANGED <<dvars, roots, memo, ctx, saved>>
 
 CurRoot == roots[epoch + 1]
 
@@ -142,6 +190,7 @@ TReopen ==
 TNext ==
   \/ TReset \/ TPublish \/ TTombstone \/ TEpochHash \/ TLookup \/ TBatchLookup
   \/ THistory \/ TAudit \/ TAuditTamper \/ TWire \/ TReopen \/ TCrash
+  \/ TPublishFault \/ TSave \/ TRestore \/ TRAnswer
 
 TSpec == TInit /\ [][TNext]_tvars
 
